@@ -17,6 +17,8 @@ OpOf(r) == IF r.k = "revoke" THEN [k |-> "revoke", now |-> r.now]
            ELSE IF r.k = "newmod" THEN [k |-> "newmod", ch |-> ChOf(r.ch), m |-> r.m]
            ELSE [k |-> "new", ch |-> ChOf(r.ch), now |-> r.now]
 
+\* lines recorded from the repository's own tests carry arbitrary property values: whether a refusal was legal (an invalid value, say) is outside the model
+LenientRefusal(e) == "lenient_refusal" \in DOMAIN e /\ e.lenient_refusal
 Clause(o, op, e, n) ==
   LET ch == IF op.k = "revoke" THEN <<>> ELSE op.ch IN
   IF o.revoked /\ e.ok THEN "revoked_object_versioned"
@@ -28,7 +30,7 @@ Clause(o, op, e, n) ==
   ELSE IF e.ok /\ n.revoked # (op.k = "revoke") THEN "revoked_flag_wrong"
   ELSE IF e.ok /\ op.k = "newmod" /\ op.m <= o.modified THEN "user_modified_not_later"
   ELSE IF ~e.orig_unchanged THEN "original_modified"
-  ELSE IF ~e.ok /\ Apply(o, op).ok THEN "refused_legal_operation"
+  ELSE IF ~e.ok /\ Apply(o, op).ok /\ ~LenientRefusal(e) THEN "refused_legal_operation"
   ELSE "none"
 
 TraceInit == l = 1 /\ pool = {} /\ last = NoCall
